@@ -131,6 +131,9 @@ pub(crate) fn derive_struct_diff_struct(struct_: &Struct) -> TokenStream {
         .enumerate()
         .for_each(|(index, field)| {
             let field_name = field.field_name.as_ref().unwrap();
+            // `r#type` cannot be spliced into `set_{}_with_diff`: name the setter after the bare identifier
+            #[cfg(feature = "generated_setters")]
+            let setter_field_name = field_name.trim_start_matches("r#");
             used_generics.extend(struct_.generics.iter().filter(|x| x.full() == field.ty.ident.path(&field.ty, false)));
 
             let to_add = struct_.generics.iter().filter(|x| field.ty.wraps().iter().find(|&wrapped_type| &x.full() == wrapped_type ).is_some());
@@ -204,7 +207,7 @@ pub(crate) fn derive_struct_diff_struct(struct_: &Struct) -> TokenStream {
                         },
                         (true, (_, false, None)) | (false, (true, false, None)) => {
                             l!(setters_body, "\n/// Setter generated by StructDiff. Use to set the {} field and generate a diff if necessary", field_name);
-                            l!(setters_body, "\npub fn set_{}_with_diff(&mut self, value: {}) -> Option<<Self as StructDiff>::Diff> {{", field_name, field.ty.full());
+                            l!(setters_body, "\npub fn set_{}_with_diff(&mut self, value: {}) -> Option<<Self as StructDiff>::Diff> {{", setter_field_name, field.ty.full());
                             l!(setters_body, "\n\tif self.{} == value {{return None}};", field_name);
                             l!(setters_body, "\n\tlet diff = <Self as StructDiff>::Diff::{}(value.clone());", field_name);
                             l!(setters_body, "\n\tself.{} = value;", field_name);
@@ -269,7 +272,7 @@ pub(crate) fn derive_struct_diff_struct(struct_: &Struct) -> TokenStream {
                         },
                         (true, (_, false, None)) | (false, (true, false, None)) => {
                             l!(setters_body, "\n/// Setter generated by StructDiff. Use to set the {} field and generate a diff if necessary", field_name);
-                            l!(setters_body, "\npub fn set_{}_with_diff(&mut self, value: {}) -> Option<<Self as StructDiff>::Diff> {{", field_name, field.ty.full());
+                            l!(setters_body, "\npub fn set_{}_with_diff(&mut self, value: {}) -> Option<<Self as StructDiff>::Diff> {{", setter_field_name, field.ty.full());
                             l!(setters_body, "\n\tif self.{} == value {{return None}};", field_name);
                             l!(setters_body, "\n\tlet diff = <Self as StructDiff>::Diff::{}(value.clone());", field_name);
                             l!(setters_body, "\n\tself.{} = value;", field_name);
@@ -341,7 +344,7 @@ pub(crate) fn derive_struct_diff_struct(struct_: &Struct) -> TokenStream {
                         },
                         (true, (_, false, None)) | (false, (true, false, None)) => {
                             l!(setters_body, "\n/// Setter generated by StructDiff. Use to set the {} field and generate a diff if necessary", field_name);
-                            l!(setters_body, "\npub fn set_{}_with_diff(&mut self, value: {}) -> Option<<Self as StructDiff>::Diff> {{", field_name, field.ty.full());
+                            l!(setters_body, "\npub fn set_{}_with_diff(&mut self, value: {}) -> Option<<Self as StructDiff>::Diff> {{", setter_field_name, field.ty.full());
                             l!(setters_body, "\n\tif self.{} == value {{return None}};", field_name);
                             l!(setters_body, "\n\tlet diff = <Self as StructDiff>::Diff::{}(self.{}.diff(&value));", field_name, field_name);
                             l!(setters_body, "\n\tself.{} = value;", field_name);
@@ -453,7 +456,7 @@ pub(crate) fn derive_struct_diff_struct(struct_: &Struct) -> TokenStream {
                             },
                             (true, (_, false, None)) | (false, (true, false, None)) => {
                                 l!(setters_body, "\n/// Setter generated by StructDiff. Use to set the {} field and generate a diff if necessary", field_name);
-                                l!(setters_body, "\npub fn set_{}_with_diff(&mut self, value: {}) -> Option<<Self as StructDiff>::Diff> {{", field_name, field.ty.full());
+                                l!(setters_body, "\npub fn set_{}_with_diff(&mut self, value: {}) -> Option<<Self as StructDiff>::Diff> {{", setter_field_name, field.ty.full());
                                 l!(setters_body, "\n\tif self.{} == value {{return None}};", field_name);
                                 l!(setters_body, "\n\tlet diff = {}", diff_body_fragment_setter);
                                 l!(setters_body, "\n\tself.{} = value;", field_name);
@@ -597,7 +600,7 @@ pub(crate) fn derive_struct_diff_struct(struct_: &Struct) -> TokenStream {
                             },
                             (true, (_, false, None)) | (false, (true, false, None)) => {
                                 l!(setters_body, "\n/// Setter generated by StructDiff. Use to set the {} field and generate a diff if necessary", field_name);
-                                l!(setters_body, "\npub fn set_{}_with_diff(&mut self, value: {}) -> Option<<Self as StructDiff>::Diff> {{", field_name, field.ty.full());
+                                l!(setters_body, "\npub fn set_{}_with_diff(&mut self, value: {}) -> Option<<Self as StructDiff>::Diff> {{", setter_field_name, field.ty.full());
                                 l!(setters_body, "\n\tlet ret = structdiff::collections::unordered_map_like_recursive::unordered_hashcmp(self.{}.iter(), value.iter(), true).map(|x| <Self as StructDiff>::Diff::{}(x.into()));", field_name, field_name);
                                 l!(setters_body, "\n\tself.{} = value;", field_name);
                                 l!(setters_body, "\n\tret");
@@ -671,7 +674,7 @@ pub(crate) fn derive_struct_diff_struct(struct_: &Struct) -> TokenStream {
                             },
                             (true, (_, false, None)) | (false, (true, false, None)) => {
                                 l!(setters_body, "\n/// Setter generated by StructDiff. Use to set the {} field and generate a diff if necessary", field_name);
-                                l!(setters_body, "\npub fn set_{}_with_diff(&mut self, value: {}) -> Option<<Self as StructDiff>::Diff> {{", field_name, field.ty.full());
+                                l!(setters_body, "\npub fn set_{}_with_diff(&mut self, value: {}) -> Option<<Self as StructDiff>::Diff> {{", setter_field_name, field.ty.full());
                                 l!(setters_body, "\n\tlet ret = structdiff::collections::ordered_array_like::hirschberg(&value, &self.{}).map(|x| <Self as StructDiff>::Diff::{}(x.into()));", field_name, field_name);
                                 l!(setters_body, "\n\tself.{} = value;", field_name);
                                 l!(setters_body, "\n\tret");
@@ -739,7 +742,7 @@ pub(crate) fn derive_struct_diff_struct(struct_: &Struct) -> TokenStream {
                             },
                             (true, (_, false, None)) | (false, (true, false, None)) => {
                                 l!(setters_body, "\n/// Setter generated by StructDiff. Use to set the {} field and generate a diff if necessary", field_name);
-                                l!(setters_body, "\npub fn set_{}_with_diff(&mut self, value: {}) -> Option<<Self as StructDiff>::Diff> {{", field_name, field.ty.full());
+                                l!(setters_body, "\npub fn set_{}_with_diff(&mut self, value: {}) -> Option<<Self as StructDiff>::Diff> {{", setter_field_name, field.ty.full());
                                 l!(setters_body, "\n\tlet ret = structdiff::collections::unordered_array_like::unordered_hashcmp(self.{}.iter(), value.iter()).map(|x| <Self as StructDiff>::Diff::{}(x.into()));", field_name, field_name);
                                 l!(setters_body, "\n\tself.{} = value;", field_name);
                                 l!(setters_body, "\n\tret");
@@ -809,7 +812,7 @@ pub(crate) fn derive_struct_diff_struct(struct_: &Struct) -> TokenStream {
                                 },
                                 (true, (_, false, None)) | (false, (true, false, None)) => {
                                     l!(setters_body, "\n/// Setter generated by StructDiff. Use to set the {} field and generate a diff if necessary", field_name);
-                                    l!(setters_body, "\npub fn set_{}_with_diff(&mut self, value: {}) -> Option<<Self as StructDiff>::Diff> {{", field_name, field.ty.full());
+                                    l!(setters_body, "\npub fn set_{}_with_diff(&mut self, value: {}) -> Option<<Self as StructDiff>::Diff> {{", setter_field_name, field.ty.full());
                                     l!(setters_body, "\n\tlet ret = structdiff::collections::unordered_map_like::unordered_hashcmp(self.{}.iter(), value.iter(), true).map(|x| <Self as StructDiff>::Diff::{}(x.into()));", field_name, field_name);
                                     l!(setters_body, "\n\tself.{} = value;", field_name);
                                     l!(setters_body, "\n\tret");
@@ -878,7 +881,7 @@ pub(crate) fn derive_struct_diff_struct(struct_: &Struct) -> TokenStream {
                                 },
                                 (true, (_, false, None)) | (false, (true, false, None)) => {
                                     l!(setters_body, "\n/// Setter generated by StructDiff. Use to set the {} field and generate a diff if necessary", field_name);
-                                    l!(setters_body, "\npub fn set_{}_with_diff(&mut self, value: {}) -> Option<<Self as StructDiff>::Diff> {{", field_name, field.ty.full());
+                                    l!(setters_body, "\npub fn set_{}_with_diff(&mut self, value: {}) -> Option<<Self as StructDiff>::Diff> {{", setter_field_name, field.ty.full());
                                     l!(setters_body, "\n\tlet ret = structdiff::collections::unordered_map_like::unordered_hashcmp(self.{}.iter(), value.iter(), false).map(|x| <Self as StructDiff>::Diff::{}(x.into()));", field_name, field_name);
                                     l!(setters_body, "\n\tself.{} = value;", field_name);
                                     l!(setters_body, "\n\tret");
